@@ -361,6 +361,51 @@ pub fn c03_lattice<D: Distance>(
             }
         }
     }
+    // one QueryBuilder used for several queries, its options set again in between: every answer must be
+    // the one a fresh builder gives for the options in force (the setters only ever replace a value)
+    if n > 0 && !queries.is_empty() {
+        let q = &queries[r.below(queries.len() as u64) as usize];
+        let count = *r.pick(&[1usize, 3, n]);
+        let mut qb = reader.nns(count);
+        let mut eff = Opts { count, search_k: None, oversampling: None, cand: 0 };
+        for _ in 0..if deep { 5 } else { 3 } {
+            match r.below(4) {
+                0 => {
+                    let k = *r.pick(&[1usize, 2, n.max(1), usize::MAX]);
+                    qb.search_k(nz(k));
+                    eff.search_k = Some(k);
+                }
+                1 => {
+                    let o = *r.pick(&[1usize, 2, usize::MAX]);
+                    qb.oversampling(nz(o));
+                    eff.oversampling = Some(o);
+                }
+                _ => {
+                    // filters in an order that narrows and then widens again, or the other way round
+                    let c = 1 + r.below(cands.len() as u64 - 1) as usize;
+                    if let Some(bm) = &cands[c] {
+                        qb.candidates(bm);
+                        eff.cand = c;
+                    }
+                }
+            }
+            stats.queries += 2;
+            let reused = std::panic::catch_unwind(std::panic::AssertUnwindSafe(|| qb.by_vector(rtxn, q))).map_err(|_| "panicked".to_string()).and_then(|x| x.map_err(|e| e.to_string()));
+            let fresh = run_q(rtxn, reader, &eff, &cands, q);
+            match (reused, fresh) {
+                (Ok(a), Ok(b)) => {
+                    if !same_results(&a, &b) {
+                        out.push(("C03", "reused_query_builder", format!("index {} {eff:?}: a builder whose options were set again answers {:?}, a fresh builder with the same options {:?}", im.index, a.iter().take(5).collect::<Vec<_>>(), b.iter().take(5).collect::<Vec<_>>())));
+                        return out;
+                    }
+                }
+                (a, b) => {
+                    out.push(("C03", "query_failed", format!("index {} {eff:?}: reused builder {:?} / fresh builder {:?}", im.index, a.map(|v| v.len()), b.map(|v| v.len()))));
+                    return out;
+                }
+            }
+        }
+    }
     // by_item(id) == by_vector(vector of id), same options
     for id in ids.iter().take(if deep { 4 } else { 1 }) {
         let count = *r.pick(&[1usize, 3, n]);
